@@ -522,6 +522,18 @@ def _run_check(prop: Prop, tier: str, seed: int) -> int:
                 axioms_used |= set(ax[t])
         ctx.log(f"axiom audit: {discharged}/{len(thms)} theorems within {sorted(ALLOWED_AXIOMS)}")
     notes["theorems"] = thms
+    # thorough tier: independent re-check of the compiled theorems by leanchecker
+    if build_ok and tier == "thorough" and prop.lean_modules:
+        try:
+            with _LakeLock():
+                lc = subprocess.run(["lake", "env", "leanchecker", *prop.lean_modules], cwd=LEAN, capture_output=True,
+                                    text=True, timeout=3000)
+            notes["leanchecker"] = {"modules": list(prop.lean_modules), "exit": lc.returncode}
+            if lc.returncode != 0 or "uncaught exception" in (lc.stdout + lc.stderr) or "error" in lc.stderr.lower():
+                broken.append(Broken("leanchecker", ",".join(prop.lean_modules), (lc.stdout + lc.stderr)[-1200:]))
+            ctx.log(f"leanchecker on {len(prop.lean_modules)} module(s): exit {lc.returncode}")
+        except Exception as e:
+            broken.append(Broken("leanchecker", ",".join(prop.lean_modules), f"{type(e).__name__}: {e}"))
 
     # 4. correspondence + oracle
     if driver_ok:
